@@ -322,6 +322,21 @@ def extract(repo):
         if isinstance(node, ast.Call) and isinstance(node.func, ast.Attribute) and node.func.attr == 'find' \
                 and len(node.args) == 2 and isinstance(node.args[1], ast.Constant):
             dot_from = node.args[1].value
+    # has_vel = first_line[a:].count('.') == 6   (a = 0 when the whole line is counted)
+    count_from = None
+    for node in ast.walk(gr):
+        if isinstance(node, ast.Call) and isinstance(node.func, ast.Attribute) and node.func.attr == 'count' \
+                and len(node.args) == 1 and isinstance(node.args[0], ast.Constant) and node.args[0].value == '.':
+            v = node.func.value
+            if isinstance(v, ast.Name):
+                count_from = 0
+            elif isinstance(v, ast.Subscript) and isinstance(v.slice, ast.Slice) and v.slice.upper is None \
+                    and v.slice.step is None and isinstance(v.slice.lower, ast.Constant) \
+                    and isinstance(v.slice.lower.value, int) and v.slice.lower.value >= 0:
+                count_from = v.slice.lower.value
+    if count_from is None:
+        raise ExtractError("read_gro: the test `....count('.') == 6` for velocities was not found")
+    res['groCountFrom'] = count_from
     if vel_names is None or dot_from is None:
         raise ExtractError('read_gro velocity names / dot search start not found')
     for n in res['groNames'] + vel_names:
@@ -545,10 +560,12 @@ def groTypes : List RTy := [%s]
 def groWidths : List Nat := [%s]
 def groVelNames : List FName := [%s]
 def groDotFrom : Nat := %d
+def groCountFrom : Nat := %d
 
 def gro : GroLayout :=
   { atomFmt := groFmt, fieldNames := groNames, fieldTypes := groTypes, fieldWidths := groWidths,
-    velNames := groVelNames, velTypes := [.float, .float, .float], dotFrom := groDotFrom }
+    velNames := groVelNames, velTypes := [.float, .float, .float], dotFrom := groDotFrom,
+    countFrom := groCountFrom }
 
 /-! the format-spec STRINGS of the replacement fields, exactly as they stand in the source: the `Spec`s
 above are what `C16.specOfString` (regular expression of TruncFormatter) makes of them — `layout_specs_parse` -/
@@ -565,6 +582,6 @@ end C16.Layout
        lsegs(res['groFmt']), ',\n'.join('  (%d, %s)' % (p, lsegs(sg)) for p, sg in res['groFmts']),
        res['groDefaultPrecision'], ', '.join('.' + n for n in res['groNames']),
        ', '.join('.' + t for t in res['groTypes']), ', '.join(str(w) for w in res['groWidths']),
-       ', '.join('.' + n for n in res['groVelNames']), res['groDotFrom'],
+       ', '.join('.' + n for n in res['groVelNames']), res['groDotFrom'], res['groCountFrom'],
        llist(res['raw']['atom']), llist(res['raw']['ter']), lchars(res['raw']['conect']), llist(res['raw']['gro']),
        ',\n'.join('  (%d, %s)' % (p, llist(r)) for p, r in res['raw']['groFmts']))
